@@ -225,6 +225,7 @@ Fixpoint eval_cond (U : universe) (d : descriptor) (o : oobj) (c : cond) : out b
   | CLenOut op k => do n <- out_len U d; Ok (cmp_eval op n k)
   | COr a b => do x <- eval_cond U d o a; if x then Ok true else eval_cond U d o b
   | CAnd a b => do x <- eval_cond U d o a; if x then eval_cond U d o b else Ok false
+  | CNot a => do x <- eval_cond U d o a; Ok (negb x)
   end.
 
 (** an if/elif chain: the action of the first branch whose condition holds *)
